@@ -430,3 +430,323 @@ def push_distribution(cases, results):
             d["pend_seen_ready"] += sum(1 for k, v in lg if k == "r" and not v)
             d["pend_seen_finalize"] += sum(1 for k, v in lg if k == "f" and not v)
     return d
+
+
+# ============================================================================ sinktools (C14)
+
+SINK_COMBS = {"map": (1, 1), "filter": (1, 1), "filter_map": (1, 1), "flat_map": (1, 1),
+              "flatten": (1, None), "unzip": (2, 2), "lazy": (1, 1)}
+_RES = {0: "RDone", 1: "RPend", 2: "RErr"}
+_SOUT = {"fin": "SFinished", "fail": "SFailed", "fuel": "SOutOfFuel", "panic": "SPanicked"}
+
+
+def s_ref_items(case, i):
+    c = case["comb"]
+    if c == "lazy":
+        return [nth(it, 0) for it in case["items"]]
+    return ref_items(case, i)
+
+
+def c_scomb(case):
+    c = case["comb"]
+    if c == "map":
+        return "(KMap %s)" % c_fcode(case["f"])
+    if c == "filter":
+        return "(KFilter %s)" % c_pcode(case["q"])
+    if c == "filter_map":
+        return "(KFilterMap %s %s)" % (c_pcode(case["q"]), c_fcode(case["f"]))
+    if c == "flat_map":
+        return "(KFlatMap %s)" % c_gcode(case["g"])
+    if c == "lazy":
+        return "(KLazy %d%%nat %s)" % (case["init_pends"], g_bool(case["init_ok"]))
+    return {"flatten": "KFlatten", "unzip": "KUnzip"}[c]
+
+
+def c_ress(rs):
+    return g_list([_RES[r] for r in rs])
+
+
+def c_sdowns(downs):
+    return g_list(["(%s, %s, %s, %s)" % (c_ress(d[0]), c_bools(d[1]), c_ress(d[2]), c_ress(d[3])) for d in downs])
+
+
+def c_slog(log):
+    out = []
+    for e in log:
+        if e[0] == "r":
+            out.append("SRdy %s" % _RES[e[1]])
+        elif e[0] == "f":
+            out.append("SFlush %s" % _RES[e[1]])
+        elif e[0] == "c":
+            out.append("SClose %s" % _RES[e[1]])
+        else:
+            out.append("SSend %d %s" % (e[1], g_bool(bool(e[2]))))
+    return g_list(out)
+
+
+def c_strace(tr):
+    out = []
+    for e in tr:
+        if e[0] == "r":
+            out.append("TRdy %s" % _RES[e[1]])
+        elif e[0] == "f":
+            out.append("TFlush %s" % _RES[e[1]])
+        elif e[0] == "c":
+            out.append("TClose %s" % _RES[e[1]])
+        else:
+            out.append("TSend %s" % g_bool(bool(e[1])))
+    return g_list(out)
+
+
+def sink_term(case, res, fn="chk14"):
+    if "panic" in res:
+        obs = "(SPanicked, [], [], 0%nat)"
+    elif "logs" not in res:
+        return 3
+    else:
+        obs = "(%s, %s, %s, %d%%nat)" % (_SOUT[res["out"]], c_strace(res["trace"]),
+                                        g_list([c_slog(l) for l in res["logs"]]), res["inits"])
+    return "(%s %s %d%%nat %s %s %s)" % (fn, c_scomb(case), case["fuel"], c_items(case["items"]),
+                                         c_sdowns(case["downs"]), obs)
+
+
+def slog_failed(log):
+    return any((e[0] in "rfc" and e[1] == 2) or (e[0] == "s" and not e[2]) for e in log)
+
+
+def slog_reclosed(log):
+    closed = False
+    for e in log:
+        if e[0] == "c":
+            if closed:
+                return True
+            if e[1] == 0:
+                closed = True
+    return False
+
+
+def slog_weak_ok(log):
+    """swfw of SinkModel.v on an oldest-first JSON log"""
+    ready = closing = closed = failed = False
+    for e in log:
+        if failed:
+            return False
+        if e[0] == "s":
+            if not ready or closing:
+                return False
+            ready = False
+            failed = not e[2]
+            continue
+        if e[0] != "c" and closed:
+            return False
+        ready = e[0] == "r" and e[1] == 0
+        if e[0] == "c":
+            closing = True
+            closed = closed or e[1] == 0
+        failed = e[1] == 2
+    return True
+
+
+def sink_weak_holds(case, res):
+    """C14_weak_holds_b (python mirror, used only to classify findings)"""
+    if "logs" not in res:
+        return False
+    logs, out, inits = res["logs"], res["out"], res["inits"]
+    if len(logs) != SINK_COMBS[case["comb"]][0]:
+        return False
+    if case["comb"] == "lazy" and inits == 0:
+        if any(logs) or (out == "fin" and case["items"]):
+            return False
+        logs = []
+    for i, lg in enumerate(logs):
+        ref = s_ref_items(case, i)
+        off = [e[1] for e in lg if e[0] == "s"]
+        acc = [e[1] for e in lg if e[0] == "s" and e[2]]
+        if not slog_weak_ok(lg) or off != ref[:len(off)]:
+            return False
+        if out == "fin" and (acc != ref or not any(e[0] == "c" and e[1] == 0 for e in lg) or slog_failed(lg)):
+            return False
+    anyfail = any(slog_failed(l) for l in logs)
+    initfail = case["comb"] == "lazy" and not case["init_ok"] and inits >= 1
+    if anyfail and out != "fail":
+        return False
+    if out == "fail" and not (anyfail or initfail):
+        return False
+    if inits > 1:
+        return False
+    if case["comb"] == "lazy":
+        return all((not l) or inits == 1 for l in logs)
+    return inits == 0
+
+
+def random_res_script(rng, n, pend_dens, err_dens):
+    out = []
+    for _ in range(n):
+        if rng.chance(err_dens, 40):
+            out.append(2)
+        elif rng.chance(pend_dens, 10):
+            out.append(1)
+        else:
+            out.append(0)
+    return out
+
+
+def sink_positions(case):
+    pos = []
+    nd = SINK_COMBS[case["comb"]][0]
+    for d in range(nd):
+        ns = len(s_ref_items(case, d))
+        pos += [(d, 0, i) for i in range(max(ns, len(case["items"])) + 3)]
+        pos += [(d, 2, i) for i in range(3)]
+        pos += [(d, 3, i) for i in range(3)]
+    return pos
+
+
+def apply_sink_placement(case, placement, err=None):
+    nd = SINK_COMBS[case["comb"]][0]
+    downs = [[[], [], [], []] for _ in range(nd)]
+    for d, w, i in placement:
+        sc = downs[d][w]
+        while len(sc) <= i:
+            sc.append(0)
+        sc[i] = 1
+    if err is not None:
+        d, w, i = err
+        sc = downs[d][w]
+        while len(sc) <= i:
+            sc.append(True if w == 1 else 0)
+        sc[i] = False if w == 1 else 2
+    c = dict(case)
+    c["downs"] = downs
+    return c
+
+
+def gen_sink_base(rng, comb, ln):
+    base = {"k": "sink", "comb": comb, "fuel": 400}
+    base.update(gen_params(rng, comb))
+    base["items"] = gen_items(rng, comb if comb != "lazy" else "map", ln, 1)
+    if comb == "lazy":
+        base["init_pends"] = rng.below(4)
+        base["init_ok"] = not rng.chance(1, 5)
+    return base
+
+
+def gen_sink_cases(rng, tier, n, combs=None):
+    combs = combs or sorted(SINK_COMBS)
+    cases = load_corpus("C14")
+    if tier == "thorough":
+        cap = max(150, n // (len(combs) * 9))
+        for comb in combs:
+            for ln in range(0, 7):
+                base = gen_sink_base(rng, comb, ln)
+                if comb == "lazy":
+                    base["init_ok"] = True
+                pos = sink_positions(base)
+                count = 0
+                for k in range(4):
+                    for pl in itertools.combinations(pos, k):
+                        count += 1
+                exh = count <= cap
+                if exh:
+                    pls = [list(pl) for k in range(4) for pl in itertools.combinations(pos, k)]
+                else:
+                    seen = set()
+                    while len(seen) < cap:
+                        k = rng.choice([0, 1, 2, 2, 3, 3, 3])
+                        seen.add(tuple(sorted(rng.sample(pos, k))))
+                    pls = [list(p) for p in sorted(seen)]
+                for pl in pls:
+                    c = apply_sink_placement(base, pl)
+                    c["src"] = "exh" if exh else "exh-sampled"
+                    cases.append(c)
+                # the same with one injected error at every reachable position (<= 1 Pend)
+                errpos = pos + [(d, 1, i) for d in range(SINK_COMBS[comb][0]) for i in range(len(s_ref_items(base, d)))]
+                for e in errpos[:60]:
+                    pl = [rng.choice(pos)] if rng.chance(1, 2) else []
+                    pl = [p for p in pl if p != e]
+                    c = apply_sink_placement(base, pl, err=e)
+                    c["src"] = "err-sweep"
+                    cases.append(c)
+            if comb == "lazy":
+                for pends in range(4):
+                    for ok in (True, False):
+                        for ln in (0, 1, 2, 4):
+                            c = gen_sink_base(rng, comb, ln)
+                            c["init_pends"], c["init_ok"] = pends, ok
+                            c["downs"] = [[random_res_script(rng, 6, 3, 0), [], random_res_script(rng, 2, 3, 0),
+                                           random_res_script(rng, 2, 3, 0)]]
+                            c["src"] = "lazy-init-sweep"
+                            cases.append(c)
+    per = max(4, n // len(combs)) if tier == "quick" else max(4, n // (len(combs) * 6))
+    for comb in combs:
+        for _ in range(per):
+            c = gen_sink_base(rng, comb, rng.choice([0, 1, 2, 3, 5, 8, 12]))
+            pd = rng.choice([0, 1, 3, 5])
+            ed = rng.choice([0, 0, 0, 1, 2])
+            nd = SINK_COMBS[comb][0]
+            c["downs"] = [[random_res_script(rng, rng.below(30), pd, ed),
+                           [not rng.chance(ed, 40) for _ in range(rng.below(20))],
+                           random_res_script(rng, rng.below(5), pd, ed),
+                           random_res_script(rng, rng.below(5), pd, ed)] for _ in range(nd)]
+            c["fuel"] = rng.below(14) if rng.chance(1, 10) else 1000
+            c["src"] = "rnd"
+            cases.append(c)
+    return cases
+
+
+def shrink_sink(case):
+    def mk(**kw):
+        c = dict(case)
+        c.update(kw)
+        c["src"] = "shrunk"
+        return c
+    items = case["items"]
+    for i in range(len(items)):
+        yield mk(items=items[:i] + items[i + 1:])
+    for d in range(len(case["downs"])):
+        for w in range(4):
+            sc = case["downs"][d][w]
+            for i in range(len(sc)):
+                nd = [[list(y) for y in x] for x in case["downs"]]
+                del nd[d][w][i]
+                yield mk(downs=nd)
+            for i in range(len(sc)):
+                neutral = True if w == 1 else 0
+                if sc[i] != neutral:
+                    nd = [[list(y) for y in x] for x in case["downs"]]
+                    nd[d][w][i] = neutral
+                    yield mk(downs=nd)
+    if case["comb"] == "lazy" and case["init_pends"] > 0:
+        yield mk(init_pends=case["init_pends"] - 1)
+    for i, it in enumerate(items):
+        for j, x in enumerate(it):
+            if x > 0:
+                it2 = list(it)
+                it2[j] = x // 2
+                yield mk(items=items[:i] + [it2] + items[i + 1:])
+
+
+def sink_distribution(cases, results):
+    d = {"per_adaptor": {}, "src": {}, "items_len": {}, "outcome": {}, "n_pend_scripted": {}, "n_err_scripted": {},
+         "lazy_init_pends": {}, "lazy_init_fail": 0, "pend_seen": 0, "err_seen": 0, "small_fuel": 0}
+    for c, r in zip(cases, results):
+        def inc(k, v):
+            d[k][str(v)] = d[k].get(str(v), 0) + 1
+        inc("per_adaptor", c["comb"])
+        inc("src", c.get("src", "?"))
+        inc("items_len", len(c["items"]))
+        inc("outcome", r.get("out", "panic" if "panic" in r else "other"))
+        np_ = sum(1 for dn in c["downs"] for w in (0, 2, 3) for x in dn[w] if x == 1)
+        ne = sum(1 for dn in c["downs"] for w in (0, 2, 3) for x in dn[w] if x == 2) + \
+            sum(1 for dn in c["downs"] for x in dn[1] if not x)
+        inc("n_pend_scripted", np_ if np_ <= 3 else ">3")
+        inc("n_err_scripted", ne if ne <= 2 else ">2")
+        if c["comb"] == "lazy":
+            inc("lazy_init_pends", c["init_pends"])
+            d["lazy_init_fail"] += 0 if c["init_ok"] else 1
+        if c.get("fuel", 1000) < 100:
+            d["small_fuel"] += 1
+        for lg in r.get("logs", []):
+            d["pend_seen"] += sum(1 for e in lg if e[0] in "rfc" and e[1] == 1)
+            d["err_seen"] += 1 if slog_failed(lg) else 0
+    return d
